@@ -1,1 +1,434 @@
-// reference semantics
+//! Reference semantics of the two-pass solution-set check, written from the statements of properties C01 and C03:
+//! every node program runs exactly once after all of its parents, from the concatenation of its parents' resulting stacks and
+//! memories in ascending parent order (one copy per edge); leaves end with [1] (satisfied) or [2] (memory is a data output);
+//! nodes that read post state, and every descendant of one, run in the second pass and see the pre-state overlaid with all
+//! declared and computed mutations; cyclic or malformed graphs are rejected.  Node programs themselves are run on the real VM
+//! (which is verified separately); what this reference pins down is the orchestration around it.
+use essential_asm as asm;
+use essential_types::{
+    predicate::{Predicate, Program},
+    solution::{Mutation, SolutionSet},
+    ContentAddress, Key, Word,
+};
+use essential_vm::{Access, GasLimit, StateRead, Vm};
+use std::collections::{BTreeMap, BTreeSet};
+use std::sync::Arc;
+
+pub type Words = Vec<Word>;
+
+/// Big-endian successor of a key over signed words.
+pub fn next_key(k: &Words) -> Option<Words> {
+    let mut out = k.clone();
+    for w in out.iter_mut().rev() {
+        if *w == Word::MAX {
+            *w = Word::MIN;
+        } else {
+            *w += 1;
+            return Some(out);
+        }
+    }
+    None
+}
+
+/// Pre-state: contract -> key -> value; an absent key reads as the empty value.
+#[derive(Clone, Default, Debug)]
+pub struct PreState(pub BTreeMap<ContentAddress, BTreeMap<Words, Words>>);
+
+impl StateRead for PreState {
+    type Error = String;
+    fn key_range(&self, contract_addr: ContentAddress, key: Key, num_values: usize) -> Result<Vec<Vec<Word>>, String> {
+        let mut out = Vec::new();
+        let mut k = Some(key);
+        for _ in 0..num_values {
+            let Some(cur) = k else { break };
+            out.push(self.0.get(&contract_addr).and_then(|c| c.get(&cur)).cloned().unwrap_or_default());
+            k = next_key(&cur);
+        }
+        Ok(out)
+    }
+}
+
+/// Post-state view of the reference: the proposed value for (contract, key) if there is one (empty = deletion), else the pre-state value.
+#[derive(Clone, Default, Debug)]
+pub struct Overlay {
+    pub pre: PreState,
+    pub muts: BTreeMap<ContentAddress, BTreeMap<Words, Words>>,
+}
+
+impl StateRead for Overlay {
+    type Error = String;
+    fn key_range(&self, contract_addr: ContentAddress, key: Key, num_values: usize) -> Result<Vec<Vec<Word>>, String> {
+        let mut out = Vec::new();
+        let mut k = Some(key);
+        for _ in 0..num_values {
+            let Some(cur) = k else { break };
+            let v = match self.muts.get(&contract_addr).and_then(|c| c.get(&cur)) {
+                Some(v) => v.clone(),
+                None => self.pre.0.get(&contract_addr).and_then(|c| c.get(&cur)).cloned().unwrap_or_default(),
+            };
+            out.push(v);
+            k = next_key(&cur);
+        }
+        Ok(out)
+    }
+}
+
+#[derive(Debug, Clone, PartialEq, Eq, PartialOrd, Ord)]
+pub enum Kind {
+    InvalidGraph,
+    ProgramErrors,
+    Unsatisfied(Vec<usize>),
+    Mutations,
+}
+
+#[derive(Debug, Clone, PartialEq, Eq)]
+pub enum Verdict {
+    /// total gas, final mutations per solution (sorted: order within a solution is not part of the property)
+    Ok(u64, Vec<Vec<(Words, Words)>>),
+    /// failing solutions with the kind of failure
+    Err(Vec<(u16, Kind)>),
+}
+
+/// The documented edge sub-range of a node (None = malformed).
+pub fn node_children(p: &Predicate, i: usize) -> Option<Vec<u16>> {
+    let n = p.nodes.get(i)?;
+    if n.edge_start == u16::MAX {
+        return Some(vec![]);
+    }
+    let s = n.edge_start as usize;
+    let e = match p.nodes.get(i + 1) {
+        Some(nx) if nx.edge_start != u16::MAX => nx.edge_start as usize,
+        _ => p.edges.len(),
+    };
+    if s <= e && e <= p.edges.len() {
+        Some(p.edges[s..e].to_vec())
+    } else {
+        None
+    }
+}
+
+/// Graph shape: children lists, or None if malformed (bad edge range, edge to a missing node) or cyclic.
+pub fn graph(p: &Predicate) -> Option<Vec<Vec<u16>>> {
+    let n = p.nodes.len();
+    let mut ch = Vec::new();
+    for i in 0..n {
+        let c = node_children(p, i)?;
+        if c.iter().any(|&x| x as usize >= n) {
+            return None;
+        }
+        ch.push(c);
+    }
+    // acyclic: repeatedly remove nodes without remaining parents
+    let mut indeg = vec![0usize; n];
+    for c in &ch {
+        for &x in c {
+            indeg[x as usize] += 1;
+        }
+    }
+    let mut done = vec![false; n];
+    let mut left = n;
+    loop {
+        let ready: Vec<usize> = (0..n).filter(|&i| !done[i] && indeg[i] == 0).collect();
+        if ready.is_empty() {
+            break;
+        }
+        for i in ready {
+            done[i] = true;
+            left -= 1;
+            for &x in &ch[i] {
+                indeg[x as usize] -= 1;
+            }
+        }
+    }
+    if left == 0 {
+        Some(ch)
+    } else {
+        None
+    }
+}
+
+fn topo(ch: &[Vec<u16>]) -> Vec<usize> {
+    let n = ch.len();
+    let mut indeg = vec![0usize; n];
+    for c in ch {
+        for &x in c {
+            indeg[x as usize] += 1;
+        }
+    }
+    let mut done = vec![false; n];
+    let mut order = Vec::new();
+    while order.len() < n {
+        let i = (0..n).find(|&i| !done[i] && indeg[i] == 0).expect("acyclic");
+        done[i] = true;
+        order.push(i);
+        for &x in &ch[i] {
+            indeg[x as usize] -= 1;
+        }
+    }
+    order
+}
+
+fn reads_post(program: &Program) -> bool {
+    asm::from_bytes(program.0.iter().copied()).any(|op| {
+        matches!(op, Ok(asm::Op::StateRead(asm::StateRead::PostKeyRange)) | Ok(asm::Op::StateRead(asm::StateRead::PostKeyRangeExtern)))
+    })
+}
+
+enum NodeOut {
+    Parent(Words, Words),
+    Satisfied(bool),
+    Data(Words),
+    Failed,
+}
+
+fn run_node(program: &Program, inputs: &[(Words, Words)], leaf: bool, set: &SolutionSet, sol: u16, pre: &PreState, post: &Overlay) -> (NodeOut, u64) {
+    let ops: Vec<asm::Op> = match asm::from_bytes(program.0.iter().copied()).collect::<Result<Vec<_>, _>>() {
+        Ok(o) => o,
+        Err(_) => return (NodeOut::Failed, 0),
+    };
+    let mut stack: Words = Vec::new();
+    let mut memory: Words = Vec::new();
+    for (s, m) in inputs {
+        stack.extend(s);
+        memory.extend(m);
+    }
+    let mut vm = Vm::default();
+    vm.stack = match stack.try_into() {
+        Ok(s) => s,
+        Err(_) => return (NodeOut::Failed, 0),
+    };
+    vm.memory = match memory.try_into() {
+        Ok(m) => m,
+        Err(_) => return (NodeOut::Failed, 0),
+    };
+    let access = Access::new(Arc::new(set.solutions.clone()), sol);
+    let state = (pre.clone(), post.clone());
+    let gas = match vm.exec_ops(&ops, access, &state, &|_: &asm::Op| 1, GasLimit::UNLIMITED) {
+        Ok(g) => g,
+        Err(_) => return (NodeOut::Failed, 0),
+    };
+    let st: Words = vm.stack.to_vec();
+    let mem: Words = vm.memory.to_vec();
+    let out = if leaf {
+        if st == [2] {
+            NodeOut::Data(mem)
+        } else {
+            NodeOut::Satisfied(st == [1])
+        }
+    } else {
+        NodeOut::Parent(st, mem)
+    };
+    (out, gas)
+}
+
+struct SolState {
+    children: Vec<Vec<u16>>,
+    parents: Vec<Vec<u16>>,
+    order: Vec<usize>,
+    deferred: BTreeSet<usize>,
+    outputs: BTreeMap<usize, (Words, Words)>,
+    broken: BTreeSet<usize>, // failed nodes and their descendants (never evaluated)
+}
+
+/// One pass over one solution: evaluates the nodes selected by `pick`; returns (gas, data outputs, kind of failure if any).
+fn pass(
+    st: &mut SolState,
+    pick: impl Fn(usize, &BTreeSet<usize>) -> bool,
+    pred: &Predicate,
+    programs: &BTreeMap<ContentAddress, Program>,
+    set: &SolutionSet,
+    sol: u16,
+    pre: &PreState,
+    post: &Overlay,
+) -> (u64, Vec<Words>, Option<Kind>) {
+    let mut gas = 0u64;
+    let mut data = Vec::new();
+    let mut unsat = Vec::new();
+    let mut failed = false;
+    for &i in &st.order.clone() {
+        if !pick(i, &st.deferred) {
+            continue;
+        }
+        if st.parents[i].iter().any(|p| st.broken.contains(&(*p as usize))) {
+            st.broken.insert(i);
+            continue;
+        }
+        let inputs: Vec<(Words, Words)> = st.parents[i].iter().map(|p| st.outputs[&(*p as usize)].clone()).collect();
+        let leaf = st.children[i].is_empty();
+        let program = programs.get(&pred.nodes[i].program_address).cloned().unwrap_or_default();
+        let (out, g) = run_node(&program, &inputs, leaf, set, sol, pre, post);
+        match out {
+            NodeOut::Failed => {
+                failed = true;
+                st.broken.insert(i);
+            }
+            NodeOut::Parent(s, m) => {
+                gas += g;
+                st.outputs.insert(i, (s, m));
+            }
+            NodeOut::Satisfied(b) => {
+                gas += g;
+                if !b {
+                    unsat.push(i);
+                }
+            }
+            NodeOut::Data(m) => {
+                gas += g;
+                data.push(m);
+            }
+        }
+    }
+    let kind = if failed {
+        Some(Kind::ProgramErrors)
+    } else if !unsat.is_empty() {
+        unsat.sort();
+        Some(Kind::Unsatisfied(unsat))
+    } else {
+        None
+    };
+    (gas, data, kind)
+}
+
+/// Documented mutation-list encoding: [count, (key_len, key.., value_len, value..)*]
+fn decode_mutations(words: &[Word]) -> Option<Vec<(Words, Words)>> {
+    let mut it = 0usize;
+    let take = |it: &mut usize| -> Option<Word> {
+        let w = *words.get(*it)?;
+        *it += 1;
+        Some(w)
+    };
+    let count = take(&mut it)?;
+    if count < 0 {
+        return None;
+    }
+    let mut out = Vec::new();
+    for _ in 0..count {
+        let kl = usize::try_from(take(&mut it)?).ok()?;
+        let k = words.get(it..it.checked_add(kl)?)?.to_vec();
+        it += kl;
+        let vl = usize::try_from(take(&mut it)?).ok()?;
+        let v = words.get(it..it.checked_add(vl)?)?.to_vec();
+        it += vl;
+        out.push((k, v));
+    }
+    Some(out)
+}
+
+pub fn two_pass(
+    pre: &PreState,
+    set: &SolutionSet,
+    predicates: &BTreeMap<ContentAddress, Predicate>,
+    programs: &BTreeMap<ContentAddress, Program>,
+) -> Verdict {
+    let empty = Predicate { nodes: vec![], edges: vec![] };
+    let mut sols: Vec<Option<SolState>> = Vec::new();
+    let mut errs: Vec<(u16, Kind)> = Vec::new();
+    for (si, s) in set.solutions.iter().enumerate() {
+        let pred = predicates.get(&s.predicate_to_solve.predicate).unwrap_or(&empty);
+        match graph(pred) {
+            None => {
+                errs.push((si as u16, Kind::InvalidGraph));
+                sols.push(None);
+            }
+            Some(children) => {
+                let n = children.len();
+                let mut parents = vec![vec![]; n];
+                for (a, c) in children.iter().enumerate() {
+                    for &b in c {
+                        parents[b as usize].push(a as u16);
+                    }
+                }
+                for p in parents.iter_mut() {
+                    p.sort();
+                }
+                let order = topo(&children);
+                // deferred = post-state readers and all their descendants
+                let mut deferred = BTreeSet::new();
+                for &i in &order {
+                    let prog = programs.get(&pred.nodes[i].program_address).cloned().unwrap_or_default();
+                    if reads_post(&prog) || parents[i].iter().any(|p| deferred.contains(&(*p as usize))) {
+                        deferred.insert(i);
+                    }
+                }
+                sols.push(Some(SolState { children, parents, order, deferred, outputs: BTreeMap::new(), broken: BTreeSet::new() }));
+            }
+        }
+    }
+    // ---- first pass: everything that is not deferred; post view = pre-state (no mutation is known to it)
+    let mut gas = 0u64;
+    let mut muts: Vec<Vec<(Words, Words)>> = set.solutions.iter().map(|s| s.state_mutations.iter().map(|m| (m.key.clone(), m.value.clone())).collect()).collect();
+    let no_overlay = Overlay { pre: pre.clone(), muts: BTreeMap::new() };
+    let mut data1: Vec<Vec<Words>> = vec![vec![]; set.solutions.len()];
+    for (si, st) in sols.iter_mut().enumerate() {
+        let Some(st) = st else { continue };
+        let pred = predicates.get(&set.solutions[si].predicate_to_solve.predicate).unwrap_or(&empty);
+        let (g, data, kind) = pass(st, |i, d| !d.contains(&i), pred, programs, set, si as u16, pre, &no_overlay);
+        gas += g;
+        data1[si] = data;
+        if let Some(k) = kind {
+            errs.push((si as u16, k));
+        }
+    }
+    if !errs.is_empty() {
+        errs.sort();
+        return Verdict::Err(errs);
+    }
+    if let Some(e) = apply_data(set, &mut muts, &data1) {
+        return Verdict::Err(vec![e]);
+    }
+    // ---- second pass: deferred nodes see the pre-state overlaid with every declared and computed mutation
+    let mut overlay = Overlay { pre: pre.clone(), muts: BTreeMap::new() };
+    for (si, s) in set.solutions.iter().enumerate() {
+        for (k, v) in &muts[si] {
+            overlay.muts.entry(s.predicate_to_solve.contract.clone()).or_default().insert(k.clone(), v.clone());
+        }
+    }
+    let mut set2 = set.clone();
+    for (si, s) in set2.solutions.iter_mut().enumerate() {
+        s.state_mutations = muts[si].iter().map(|(k, v)| Mutation { key: k.clone(), value: v.clone() }).collect();
+    }
+    let mut data2: Vec<Vec<Words>> = vec![vec![]; set.solutions.len()];
+    for (si, st) in sols.iter_mut().enumerate() {
+        let Some(st) = st else { continue };
+        let pred = predicates.get(&set.solutions[si].predicate_to_solve.predicate).unwrap_or(&empty);
+        let (g, data, kind) = pass(st, |i, d| d.contains(&i), pred, programs, &set2, si as u16, pre, &overlay);
+        gas += g;
+        data2[si] = data;
+        if let Some(k) = kind {
+            errs.push((si as u16, k));
+        }
+    }
+    if !errs.is_empty() {
+        errs.sort();
+        return Verdict::Err(errs);
+    }
+    if let Some(e) = apply_data(set, &mut muts, &data2) {
+        return Verdict::Err(vec![e]);
+    }
+    for m in muts.iter_mut() {
+        m.sort();
+    }
+    Verdict::Ok(gas, muts)
+}
+
+/// Decode data outputs into mutations of their solution; at most one mutation per (contract, key) in the whole set.
+fn apply_data(set: &SolutionSet, muts: &mut [Vec<(Words, Words)>], data: &[Vec<Words>]) -> Option<(u16, Kind)> {
+    let mut slots: BTreeSet<(ContentAddress, Words)> = BTreeSet::new();
+    for (si, s) in set.solutions.iter().enumerate() {
+        for (k, _) in &muts[si] {
+            slots.insert((s.predicate_to_solve.contract.clone(), k.clone()));
+        }
+    }
+    for (si, s) in set.solutions.iter().enumerate() {
+        for mem in &data[si] {
+            let Some(ms) = decode_mutations(mem) else { return Some((si as u16, Kind::Mutations)) };
+            for (k, v) in ms {
+                if !slots.insert((s.predicate_to_solve.contract.clone(), k.clone())) {
+                    return Some((si as u16, Kind::Mutations));
+                }
+                muts[si].push((k, v));
+            }
+        }
+    }
+    None
+}
